@@ -1,5 +1,6 @@
 import PasetoModel.TextLemmas
 import PasetoModel.Forms
+import PasetoModel.Extracted.B64Src
 /-! # C09 — text encodings are strict and canonical
 Property theorems only (lemmas: `B64/*.lean`, `TextLemmas.lean`).  `decodeVec`/`encode` are the
 bit-exact mirror of `paseto-core/src/base64.rs`; the forms are instantiated at the header
@@ -59,6 +60,27 @@ theorem rejects_len_1_mod_4 (s : Bytes) (h : s.length % 4 = 1) : decodeVec s = n
   cases hd : decodeVec s with
   | none => rfl
   | some bs => exact absurd h (decode_strict s bs hd).2.1
+
+/-! ## the arithmetic kernels *as translated from the current source* (`tools/b64scan.py` → `Extracted/B64Src.lean`)
+
+These three statements are about the Rust functions themselves (translated expression by expression on every run), not
+about the hand-written mirror: the branch-free `decode_6bits` is the alphabet lookup on every byte, `encode_6bits` is the
+alphabet on every 6-bit value, and `decoded_len` is ⌊3n/4⌋ computed without overflow.  Each is vacuous if the function
+has left the translator's subset (`available_* = false`; the exhaustive correspondence is then the only tie). -/
+
+theorem src_decode_6bits_is_alphabet_lookup :
+    (!Extracted.B64Src.available_decode_6bits ||
+      (List.range 256).all (fun n => Extracted.B64Src.decode_6bits (b n) == specDec6 (b n))) = true := by decide +kernel
+
+theorem src_encode_6bits_is_alphabet :
+    (!Extracted.B64Src.available_encode_6bits ||
+      (List.range 64).all (fun n => alphabet[n]? == some (Extracted.B64Src.encode_6bits (v n)))) = true := by decide +kernel
+
+theorem src_decoded_len (n : Nat) :
+    Extracted.B64Src.available_decoded_len = true → Extracted.B64Src.decoded_len n = 3 * n / 4 ∧
+      Extracted.B64Src.decoded_len n = decodedLen n := by
+  intro _
+  constructor <;> (simp +zeta only [Extracted.B64Src.decoded_len, decodedLen] <;> omega)
 
 /-! ## the text forms, for every back end -/
 
